@@ -3,7 +3,6 @@ package main
 import (
 	"net/http"
 	"net/url"
-	"strings"
 
 	"github.com/0xReLogic/Helios/internal/config"
 	"github.com/0xReLogic/Helios/internal/loadbalancer"
@@ -130,7 +129,11 @@ func VerifStack(features, k, interim int) {
 			_, bst := loadbalancer.VerifLastBackend()
 			ok := (kind == 0 && st == bst) || (kind == 1 && st == http.StatusBadGateway)
 			verifrt.Assert(ok, "a proxied exchange delivers exactly the backend's status (502 when the backend is unreachable)")
-			verifrt.Assert(strings.HasPrefix(string(rec.body), "ok") || st == http.StatusBadGateway, "a proxied exchange delivers the backend's body")
+			if kind == 0 {
+				verifrt.Assert(string(rec.body) == "ok", "a proxied exchange delivers exactly the backend's body: nothing dropped, nothing appended")
+			} else {
+				verifrt.Assert(len(rec.body) == 0, "an unreachable backend is answered with the proxy's bare 502")
+			}
 		}
 	}
 }
